@@ -23,6 +23,10 @@ func init() {
 		return alg.RunAgree(alg.Config{Prop: o.prop, In: o.in, Seed: o.seed, Bindings: o.bindings, Max: o.max, MaxSlow: o.maxslow}, res)
 	}
 	drivers["h2c"] = func(o opts, res *core.Result) error {
-		return alg.RunH2C(alg.Config{Prop: o.prop, Seed: o.seed}, res)
+		err := alg.RunH2C(alg.Config{Prop: o.prop, Seed: o.seed}, res)
+		if err == nil {
+			alg.RunH2CLengths(alg.Config{Prop: o.prop, Seed: o.seed}, res)
+		}
+		return err
 	}
 }
